@@ -238,11 +238,12 @@ func (a ArchiveInfo) String() string {
 }
 
 func (a *ArchiveInfo) pointIndex(baseInterval, interval Timestamp) int {
-	// NOTE: We use interval.Sub(baseInterval) here instead of
+	// NOTE: We compute the distance in int64 here instead of
 	// interval - baseInterval since the latter produces
-	// wrong values because of underflow when interval < baseInterval.
-	// Another solution would be (int64(interval) - int64(baseInterval))
-	pointDistance := int64(interval.Sub(baseInterval)) / int64(a.secondsPerPoint)
+	// wrong values because of underflow when interval < baseInterval,
+	// and instead of interval.Sub(baseInterval) since its int32 result
+	// wraps around when the distance exceeds 31 bits.
+	pointDistance := (int64(interval) - int64(baseInterval)) / int64(a.secondsPerPoint)
 	return int(floorMod(pointDistance, int64(a.numberOfPoints)))
 }
 
